@@ -26,6 +26,7 @@ EXPLANATION = (
     "branch). R-C17-6: Tresca takes the maximum over all three eigenvalue pairs (= largest minus smallest on every "
     "ordering) and abs_max_principal selects the largest eigenvalue iff w_max + w_min >= 0. Not decided: Mises <= Tresca <= "
     "2/sqrt(3) Mises, eigen-solver accuracy.")
+EXPLANATION += (' R-C17-8: nothing derived from the stress columns is cached on the accessor object (memo rule: caching decorators, unreset memo attributes; built-in positive example).')
 EXPLANATION += (' R-C17-7: every square root in the equivalent-stress module takes a radicand that is non-negative by its form (sums and products of even powers, x*x, abs, non-negative constants; no differences), so that cancellation cannot round it below zero (hydrostatic states).')
 ASSUMPTIONS = ["np.linalg.eigvalsh returns ascending eigenvalues of the symmetric matrix given by its UPLO triangle (default 'L')",
                "numpy stacks a 3x3 list of arrays as (3,3,N); .T reverses all axes"]
@@ -539,8 +540,20 @@ class EigenDomain(Domain):
 
 
 def run(ctx):
-    for r in (_r1, _r2, _r3, _r4, _r5, _r6, _r7):
+    for r in (_r1, _r2, _r3, _r4, _r5, _r6, _r7, _r8):
         ctx.attempt(r)
+
+
+def _r8(ctx):
+    """R-C17-8: the accessor computes every result from the frame as it is now - nothing derived from the stress columns is
+    cached on the accessor object (a caching decorator cannot be invalidated when the frame is changed in place; a hand-written
+    memo attribute must be reset wherever the data it was computed from changes).  Otherwise a kept accessor returns principal
+    stresses of the old tensors while tresca()/mises() use the current ones: row-by-row agreement with the plain functions is lost."""
+    from .. import memo
+    prog = ctx.prog
+    ctx.rule("R-C17-8", floor=1, what="nothing derived from the stress columns is cached on the accessor")
+    memo.run_rule(ctx, classes=[prog.cls(EQ + ":StressTensorEquistress")], modules=[EQ], what="stress tensors",
+                  external_state=("_obj",))            # the frame belongs to the caller and may be changed in place
 
 
 def _r1(ctx):
